@@ -191,6 +191,10 @@ func ExecWith(p Params, pats []NamedTP, ctl *explore.Ctl, mon Monitor, adjust fu
 	if cfg.MTU == 0 {
 		cfg.MTU = 1400
 	}
+	// two registered users, one of each padding strategy mieru derives from the user name
+	// ("alice": ASCII padding, "erin": entropy padding); the seed picks which one the client is
+	cfg.Users = Users()
+	cfg.ClientUser = cfg.Users[int(p.Seed&1)]
 	if p.Faults {
 		lat := p.Latency
 		if lat == 0 {
@@ -396,4 +400,12 @@ func RunOne(u *runner.U, p Params, pats []NamedTP, b explore.Bound, mon Monitor)
 		u.Distinct(p.String())
 	}
 	return st
+}
+
+// Users are the users registered at the server in transfer executions.
+func Users() []*appctlpb.User {
+	return []*appctlpb.User{
+		{Name: proto.String("alice"), Password: proto.String("pw1")},
+		{Name: proto.String("erin"), Password: proto.String("pw2")},
+	}
 }
